@@ -58,7 +58,7 @@ func batchNames(u *universe) []string {
 			bs = append(bs, "json/"+t.name)
 		}
 	}
-	return append(bs, "prim/0", "stream/0", "util/0", "long/stream", "long/prim", "long/serix", "long/json")
+	return append(bs, "prim/0", "prim/lenarg", "stream/0", "stream/lenarg", "util/0", "long/stream", "long/prim", "long/serix", "long/json")
 }
 
 // validEncodings produces up to n distinct valid encodings of t (deterministic in rng).
@@ -265,9 +265,17 @@ func genBatch(c *vf.Ctx, u *universe, name string) []Case {
 	case "long":
 		out = genLongCases(c, u, tn)
 	case "prim":
-		out = genPrimCases(c.Rand("prim"), sz.scale)
+		if tn == "lenarg" {
+			out = genLenArgCases(c.Rand("prim/lenarg"), sz.scale)
+		} else {
+			out = genPrimCases(c.Rand("prim"), sz.scale)
+		}
 	case "stream":
-		out = genStreamCases(c.Rand("stream"), sz.scale)
+		if tn == "lenarg" {
+			out = genStreamLenArgCases(c.Rand("stream/lenarg"))
+		} else {
+			out = genStreamCases(c.Rand("stream"), sz.scale)
+		}
 	case "util":
 		out = genUtilCases(c.Rand("util"))
 	}
@@ -350,6 +358,14 @@ func runCase(c *vf.Ctx, r *runner, cs *Case, cal *calib, perFP map[string]int) {
 		c.Count("null_mutants_"+out, 1)
 	}
 	c.Count("mutation:"+cs.kind(), 1)
+	if cs.kind() == "lenarg" {
+		c.Count("lenarg_calls:"+cs.Fam, 1)
+		if cs.Fam == "prim" {
+			cls := lenargClass(cs)
+			c.Count("lenarg_"+cls+"_"+out, 1)
+			c.Distinct("lenarg_shapes", cs.Tgt+"|"+cs.Org+"|"+cls+"|"+out)
+		}
+	}
 	for _, cl := range []string{"hexlen", "numstr", "hexform", "long", "short"} {
 		if strings.Contains(cs.Org, "->"+cl+"-") {
 			c.Count(cl+"_mutants_tried", 1)
@@ -411,6 +427,10 @@ func runCase(c *vf.Ctx, r *runner, cs *Case, cal *calib, perFP map[string]int) {
 }
 
 func child(c *vf.Ctx) {
+	if c.Child == "conc" {
+		concChild(c)
+		return
+	}
 	runtime.GOMAXPROCS(1)
 	u := newUniverse()
 	r := &runner{u: u}
@@ -577,6 +597,13 @@ func replay(c *vf.Ctx) {
 		fmt.Fprintln(os.Stderr, err)
 		os.Exit(3)
 	}
+	if cs.Fam == "" {
+		// a finding of the concurrent family (dead-lock / race / panic under concurrency): the interleaving cannot be
+		// replayed exactly; the rounds of the tier are run again (same seed => same case lists)
+		runConc(c, "plain", c.Pick(concPlainQuick, concPlainThorough), concPer)
+		runConc(c, "race", c.Pick(concRaceQuick, concRaceThorough), concPer)
+		return
+	}
 	b, _ := json.Marshal(cs)
 	res := c.RunChild(vf.ChildOpts{Name: "one", Stdin: b, MemKB: childMemKB, Env: []string{"GOMAXPROCS=1"}, Timeout: 5 * time.Minute})
 	if res.TimedOut {
@@ -595,7 +622,7 @@ func run(c *vf.Ctx) {
 		replay(c)
 		return
 	}
-	c.SetRule("each evaluation is one call of a decoder entry point (serix.Decode into one of ~55 registered destination types (several with registered syntactic validators, reached through optional / non-optional pointer fields, slices of pointers with MustOccur / uniqueness / ordering rules, map values, top-level pointers) incl. ds.Set/SerializableOrderedMap.Decode; JSONDecode/MapDecode; 19 Deserializer primitives and chains of them; 10 stream Read* helpers; typeutils) on one input, in a GOMAXPROCS=1 child under ulimit -v, observed by recover, returned (n, err), MemStats.TotalAlloc delta and a count of element-decoder invocations. Binary inputs: seeded valid encodings, every truncation, 8/16/32-bit substitution of {0,1,2,3,±1,0x7f..,0xff..,2^28,…} at every (sampled above 40/120 bytes) offset, bit flips, splices, insert/delete, random strings 0–64 bytes; JSON: every node of every valid document replaced by every other JSON kind and by out-of-range/fractional/negative numbers and bad hex / numeric strings; every string node additionally by well-formed 0x-hex decoding to 0, 1, N-1, N+1, 2N, 1000 (and 3/5/9/31/33) bytes where N is the original decoded length, by numeric-string spellings (too many digits, leading zeros, signs, exponent, blanks, int64/uint64 borders), by every string of length 0..3 over the alphabet {0,x,X,1,a,g,-,+,.,e} (first and hand-written fully populated documents; also fed directly to serix.DecodeHex/DecodeUint256/DecodeUint64), by hex-form ambiguities (no prefix, odd digits, upper case, 256/257-bit quantities) and, in the first document of each target, by 64 KiB strings (plain, digits, valid hex); every member removed, extra members; all x validation on/off. Long inputs for every family (stream helpers through plain, one-byte, 4096- and 4097-byte-chunk readers; Deserializer byte-slice/string/sequence/payload primitives; serix []byte/string/[]uint16/map/[]custom destinations with uint16/uint32 prefixes; JSON strings): 4 KiB, 4 KiB+1, 8 KiB, 64 KiB and 1 MiB of real data behind a prefix denoting exactly the data, data±1, 2x, 2^28, 2^31, the maximum of the width and (uint64) 2^40, 2^63-1, 2^63; for these the allocation bound is additionally capped at 16 MiB + K*len (K=16, element-wise serix 64; measured maxima in calibration). distinct_nontrivial counts distinct (family, target, validation, mutation kind, outcome class) tuples, outcome class = accepted | panic | root error message with numbers stripped – i.e. distinct decoder behaviours actually reached per target and mutation")
+	c.SetRule("each evaluation is one call of a decoder entry point (serix.Decode into one of ~55 registered destination types (several with registered syntactic validators, reached through optional / non-optional pointer fields, slices of pointers with MustOccur / uniqueness / ordering rules, map values, top-level pointers) incl. ds.Set/SerializableOrderedMap.Decode; JSONDecode/MapDecode; 19 Deserializer primitives and chains of them; 10 stream Read* helpers; typeutils) on one input, in a GOMAXPROCS=1 child under ulimit -v, observed by recover, returned (n, err), MemStats.TotalAlloc delta and a count of element-decoder invocations. Binary inputs: seeded valid encodings, every truncation, 8/16/32-bit substitution of {0,1,2,3,±1,0x7f..,0xff..,2^28,…} at every (sampled above 40/120 bytes) offset, bit flips, splices, insert/delete, random strings 0–64 bytes; JSON: every node of every valid document replaced by every other JSON kind and by out-of-range/fractional/negative numbers and bad hex / numeric strings; every string node additionally by well-formed 0x-hex decoding to 0, 1, N-1, N+1, 2N, 1000 (and 3/5/9/31/33) bytes where N is the original decoded length, by numeric-string spellings (too many digits, leading zeros, signs, exponent, blanks, int64/uint64 borders), by every string of length 0..3 over the alphabet {0,x,X,1,a,g,-,+,.,e} (first and hand-written fully populated documents; also fed directly to serix.DecodeHex/DecodeUint256/DecodeUint64), by hex-form ambiguities (no prefix, odd digits, upper case, 256/257-bit quantities) and, in the first document of each target, by 64 KiB strings (plain, digits, valid hex); every member removed, extra members; all x validation on/off. Long inputs for every family (stream helpers through plain, one-byte, 4096- and 4097-byte-chunk readers; Deserializer byte-slice/string/sequence/payload primitives; serix []byte/string/[]uint16/map/[]custom destinations with uint16/uint32 prefixes; JSON strings): 4 KiB, 4 KiB+1, 8 KiB, 64 KiB and 1 MiB of real data behind a prefix denoting exactly the data, data±1, 2x, 2^28, 2^31, the maximum of the width and (uint64) 2^40, 2^63-1, 2^63; for these the allocation bound is additionally capped at 16 MiB + K*len (K=16, element-wise serix 64; measured maxima in calibration). distinct_nontrivial counts distinct (family, target, validation, mutation kind, outcome class) tuples, outcome class = accepted | panic | root error message with numbers stripped – i.e. distinct decoder behaviours actually reached per target and mutation. Length/count ARGUMENTS (lenarg batches): Deserializer.Skip / ReadBytes / ReadBytesInPlace and the min/max bounds of ReadVariableByteSlice / ReadString / ArrayRules of ReadSequenceOfObjects / ReadSliceOfObjects, stream.ReadBytes / ReadObject, with n over {0, 1, remaining-1..+2, len, 2^8..2^24, MaxInt32(+1), MaxUint32(+1), 2^40, 2^62, MaxInt64-offset-1..+1, MaxInt64-len.., MaxInt64-16/-8/-1/-0, negatives down to MinInt64} at offsets start / 1 / mid / last / end reached by five kinds of earlier successful reads, followed by RemainingBytes, one more read and Done; lenarg_shapes counts distinct (operation, offset class, argument class, outcome). Concurrent family (conc, own children, plain and -race): per round a fresh serix.API with the whole universe plus map/slice/struct types whose elements are pointers to registered-by-value types, interface-typed map values / slice elements / fields and nestings of them; 6 goroutines decode valid and cut encodings/documents of every target (binary, JSON, map form, validation off/on) while 3 goroutines keep calling RegisterTypeSettings / RegisterValidator / RegisterInterfaceObjects with fresh types on the same API until the decoders are done; judged structurally (all goroutines parked in 3 consecutive snapshots before the round finished => decoders parked below an exported serix entry never return), by recover / process death, and by race reports whose two access stacks lie in hive.go/serializer")
 	u := newUniverse()
 	bs := batchNames(u)
 	if only := os.Getenv("C02_ONLY"); only != "" { // debugging aid: restrict to batches with this prefix
@@ -612,9 +639,22 @@ func run(c *vf.Ctx) {
 	if workers < 2 {
 		workers = 2
 	}
+	// the concurrent family runs next to the batches (its children use all CPUs; started first, they take longest)
+	for _, k := range []string{"conc/plain", "conc/race"} {
+		if only := os.Getenv("C02_ONLY"); only == "" || strings.HasPrefix(k, only) {
+			bs = append([]string{k}, bs...)
+		}
+	}
 	vf.Parallel(len(bs), workers, func(i int) {
 		t0 := time.Now()
-		runBatch(c, u, bs[i])
+		switch bs[i] {
+		case "conc/plain":
+			runConc(c, "plain", c.Pick(concPlainQuick, concPlainThorough), concPer)
+		case "conc/race":
+			runConc(c, "race", c.Pick(concRaceQuick, concRaceThorough), concPer)
+		default:
+			runBatch(c, u, bs[i])
+		}
 		if os.Getenv("C02_TIMES") != "" {
 			fmt.Fprintf(os.Stderr, "batch %-28s %6.1fs\n", bs[i], time.Since(t0).Seconds())
 		}
@@ -651,6 +691,26 @@ func run(c *vf.Ctx) {
 	c.Require("calls:util", 100)
 	c.Require("calls_with_counted_element_decodes", 3000)
 	c.Require("calls_validation_on", 30000)
+	// length / count arguments of the primitives
+	c.Require("lenarg_calls:prim", 5000)
+	c.Require("lenarg_calls:stream", 800)
+	c.Require("lenarg_length-beyond-input_err", 1500)
+	c.Require("lenarg_length-within-input_accepted", 200)
+	c.Require("lenarg_shapes", 60)
+	// concurrent family: what the harness itself drives (rounds, calls); real overlap scales with the CPUs available
+	ov := runtime.NumCPU()
+	if ov > 4 {
+		ov = 4
+	}
+	c.Require("conc_rounds", c.Pick(concPlainQuick+concRaceQuick, concPlainThorough+concRaceThorough))
+	c.Require("conc_decodes", c.Pick(100000, 4000000))
+	c.Require("conc_accepted", c.Pick(30000, 1000000))
+	c.Require("conc_targets", 100)
+	c.Require("conc_accepted_targets", 80)
+	c.Require("conc_decodes_while_registrars_live", c.Pick(40000, 1500000)*ov/4)
+	c.Require("conc_registrations_type_settings", c.Pick(2000, 80000)*ov/4)
+	c.Require("conc_registrations_validator", c.Pick(600, 25000)*ov/4)
+	c.Require("conc_registrations_interface_objects", c.Pick(600, 25000)*ov/4)
 	c.Assume("runtime.MemStats.TotalAlloc is exact for a single-goroutine child (GOMAXPROCS=1)")
 	c.Assume("a child killed by the Go runtime (out of memory under ulimit -v, stack overflow) died in the case it marked last")
 }
